@@ -105,14 +105,37 @@ def lhs_text(fm, n):
     return fm.origin(n)
 
 
+def _near(a, b):
+    """same kind of atom and almost the same token sequence: the signature of a changed constant, operator, bound or callee"""
+    import difflib
+    if a.split(" ", 1)[0] != b.split(" ", 1)[0]:
+        return False
+    ta, tb = re.findall(r"\w+|[^\w\s]", a), re.findall(r"\w+|[^\w\s]", b)
+    return difflib.SequenceMatcher(None, ta, tb).ratio() >= 0.8
+
+
 def compare(facts, res, rule, fa, fb, only=None, canon_a=None, canon_b=None, what=""):
+    """Deviance between two sibling implementations.  Reported as a violation when the difference is one-sided
+    (a step present in one sibling only) or when a differing pair is a near match (changed constant / operator /
+    bound); two siblings that differ on both sides without any near match have been restructured, which this rule
+    cannot judge: analysis broken (exit 2), never a verdict."""
     A = atoms(facts, fa, only, canon_a)
     B = atoms(facts, fb, only, canon_b)
     res.instance(rule, "%s vs %s" % (fa["qname"], fb["qname"]), facts.loc(fb), "%d / %d atoms%s" % (len(A), len(B), (" restricted to " + ",".join(only)) if only else ""))
-    for k in sorted(set(A) - set(B)):
+    onlyA, onlyB = sorted(set(A) - set(B)), sorted(set(B) - set(A))
+    if onlyA and onlyB:
+        pairs = [(a, b) for a in onlyA for b in onlyB if _near(a, b)]
+        if not pairs:
+            raise AnalysisBroken("%s and %s differ structurally (%d / %d unmatched steps, none a near match, e.g. `%s` vs `%s`): one of them was restructured; re-confirm the sibling rule by reading"
+                                 % (fa["qname"], fb["qname"], len(onlyA), len(onlyB), onlyA[0][:80], onlyB[0][:80]))
+        for a, b in pairs:
+            res.violation(rule, tbf.rel(facts.path_of(B[b])), fb["qname"], ("differs:" + b)[:110], B[b]["l"][1],
+                          "%s%s has `%s` (%s) where its sibling %s has `%s`: the two implementations no longer agree" % (what, fa["qname"], a[:160], facts.loc(A[a]), fb["qname"], b[:160]))
+        return len(A), len(B)
+    for k in onlyA:
         res.violation(rule, tbf.rel(facts.path_of(fb)), fb["qname"], ("missing:" + k)[:110], fb["l"][1],
                       "%s%s has `%s` (%s) but its sibling %s does not: the two implementations no longer agree" % (what, fa["qname"], k[:160], facts.loc(A[k]), fb["qname"]))
-    for k in sorted(set(B) - set(A)):
+    for k in onlyB:
         res.violation(rule, tbf.rel(facts.path_of(B[k])), fb["qname"], ("extra:" + k)[:110], B[k]["l"][1],
                       "%s%s performs `%s` which its sibling %s does not: the two implementations no longer agree" % (what, fb["qname"], k[:160], fa["qname"]))
     return len(A), len(B)
